@@ -204,6 +204,20 @@ Section Hasher.
     | [], [] => if ok1 && (bb_pos buffer =? 0) then Some compressor else None
     | _, _ => None
     end.
+
+  (** Debug profile: [count * 8] and [t.1 += 1] are overflow-checked (a panic).
+      [true] = the checked arithmetic of [increase_count] would panic. *)
+  Definition increase_count_overflows (t : N * N) (count : N) : bool :=
+    let s := (fst t + wrap w (count * 8))%N in
+    (N.shiftl 1 w <=? count * 8)%N || ((N.shiftl 1 w <=? s)%N && (snd t =? N.ones w)%N).
+  (** some [increase_count] of this [update] call / of [finalize] panics in the debug profile *)
+  Definition update_overflows (s : hasher) (data : list N) : bool :=
+    let '(_, blocks) := input_block (buffer s) data in
+    snd (fold_left (fun (tb : (N * N) * bool) (_ : list N) =>
+           (increase_count (fst tb) (N.of_nat (wb * 16)),
+            snd tb || increase_count_overflows (fst tb) (N.of_nat (wb * 16)))) blocks (t s, false)).
+  Definition finalize_overflows (s : hasher) : bool :=
+    increase_count_overflows (t s) (N.of_nat (bb_pos (buffer s))).
 End Hasher.
 
 (** * The four hashers *)
@@ -218,6 +232,14 @@ Definition blake224 := digest_gen put_block32 32 4 false BLAKE224_IV 28.
 Definition blake256 := digest_gen put_block32 32 4 true BLAKE256_IV 32.
 Definition blake384 := digest_gen put_block64 64 8 false BLAKE384_IV 48.
 Definition blake512 := digest_gen put_block64 64 8 true BLAKE512_IV 64.
+
+(** several [update] calls ([parts] in call order), then [finalize] *)
+Definition digest_parts (put : row * row -> list N -> N * N -> row * row) (w : N) (wb : nat)
+           (isfull : bool) (iv : row * row) (outbytes : nat) (parts : list (list N)) : option (list N) :=
+  match finalize _ put w wb isfull (fold_left (update _ put w wb) parts (new _ wb iv)) with
+  | Some h => Some (firstn outbytes (compressor_finalize wb h))
+  | None => None
+  end.
 
 (** the same from an arbitrary state (hook H2): chaining value, counter,
     buffered bytes; then absorb [tail] and finalise *)
